@@ -127,8 +127,9 @@ type kmsg struct {
 	snap       *skSnap
 	sentAt     int
 	deliveries int
-	parts      int // number of concatenated encodings
+	parts      int // number of concatenated encodings (0: hand-built message)
 	hasMapping bool
+	hops       int // C19: number of re-serialisations this content went through
 }
 
 type fleetExec struct {
@@ -312,6 +313,12 @@ func (x *fleetExec) step(e engine.Event) {
 			w = 1
 		}
 		g, ok := refmodel.GranOf(w)
+		if !ok && x.prop == "C09" && w > 0 && w < 1e12 {
+			// C09 quantifies over arbitrary non-negative float64 weights: the node becomes
+			// tainted (DESIGN 4.7) and only bit-for-bit transport of bins is compared
+			ok, g = true, 0
+			nd.tainted = true
+		}
 		if !ok || !trackable(nd.mapping, v) || !nd.model.FitsAfter(w, g) {
 			return
 		}
@@ -673,6 +680,9 @@ func (x *fleetExec) deliver(e engine.Event, nd *knode, sig string) bool {
 			})
 		})
 		nd.model.MergeFrom(m.model)
+		if m.model.TaintedAny() {
+			nd.tainted = true
+		}
 	case "fresh", "reuse":
 		var d sk
 		var dm *refmodel.RefSketch
@@ -734,6 +744,9 @@ func (x *fleetExec) deliver(e engine.Event, nd *knode, sig string) bool {
 			x.mergeSk(nd.replica, d, sig)
 		}
 		nd.model.MergeFrom(dm)
+		if dm.TaintedAny() {
+			nd.tainted = true
+		}
 	default:
 		return false
 	}
@@ -807,7 +820,16 @@ func (x *xctx) snapSketch(s sk, op string) *skSnap {
 			return false
 		})
 	})
-	sort.SliceStable(sn.Each, func(i, j int) bool { return sn.Each[i].V < sn.Each[j].V })
+	sort.Slice(sn.Each, func(i, j int) bool { // a total order, also for equal, infinite or NaN values
+		a, b := sn.Each[i], sn.Each[j]
+		if a.V < b.V || b.V < a.V {
+			return a.V < b.V
+		}
+		if fbits(a.V) != fbits(b.V) {
+			return fbits(a.V) < fbits(b.V)
+		}
+		return fbits(a.C) < fbits(b.C)
+	})
 	sn.Pos = x.snapStore(s.GetPositiveValueStore(), op+"/pos")
 	sn.Neg = x.snapStore(s.GetNegativeValueStore(), op+"/neg")
 	return sn
